@@ -73,6 +73,8 @@ type L2Options struct {
 	// Genesis validators: (operator name, consensus key name)
 	Validators [][2]string
 	Height     int64
+	// Blank leaves every store empty (no params, no genesis, no accounts): the target of a genesis import.
+	Blank bool
 }
 
 func NewL2(opt L2Options) *L2 {
@@ -106,16 +108,20 @@ func NewL2(opt L2Options) *L2 {
 		authtypes.ProtoBaseAccount, maccPerms,
 		authcodec.NewBech32Codec(sdk.GetConfig().GetBech32AccountAddrPrefix()),
 		sdk.GetConfig().GetBech32AccountAddrPrefix(), authority)
-	if err := ak.Params.Set(ctx, authtypes.DefaultParams()); err != nil {
-		panic(err)
+	if !opt.Blank {
+		if err := ak.Params.Set(ctx, authtypes.DefaultParams()); err != nil {
+			panic(err)
+		}
 	}
 	blocked := map[string]bool{}
 	for acc := range maccPerms {
 		blocked[authtypes.NewModuleAddress(acc).String()] = true
 	}
 	bk := bankkeeper.NewBaseKeeper(enc.Marshaler, runtime.NewKVStoreService(keys[banktypes.StoreKey]), ak, blocked, authority, ctx.Logger())
-	if err := bk.SetParams(ctx, banktypes.DefaultParams()); err != nil {
-		panic(err)
+	if !opt.Blank {
+		if err := bk.SetParams(ctx, banktypes.DefaultParams()); err != nil {
+			panic(err)
+		}
 	}
 	router := baseapp.NewMsgServiceRouter()
 	router.SetInterfaceRegistry(enc.InterfaceRegistry)
@@ -172,13 +178,18 @@ func NewL2(opt L2Options) *L2 {
 	msgServer := opchildkeeper.NewMsgServerImpl(k)
 	opchildtypes.RegisterMsgServer(router, msgServer)
 
-	ak.GetModuleAccount(ctx, opchildtypes.ModuleName)
-	ak.GetModuleAccount(ctx, authtypes.Minter)
-	ak.GetModuleAccount(ctx, authtypes.FeeCollectorName)
+	if !opt.Blank {
+		ak.GetModuleAccount(ctx, opchildtypes.ModuleName)
+		ak.GetModuleAccount(ctx, authtypes.Minter)
+		ak.GetModuleAccount(ctx, authtypes.FeeCollectorName)
+	}
 
 	w := &L2{Ctx: ctx, StoreKeys: sks, Enc: enc, AK: ak, BK: bk, OK: &ok, K: k, Msg: msgServer, Q: opchildkeeper.NewQuerier(k),
 		Router: router, Authority: authority, ChainID: chainID}
 
+	if opt.Blank {
+		return w
+	}
 	// genesis through the real InitGenesis
 	gs := opchildtypes.DefaultGenesisState()
 	gs.Params = params
